@@ -1,2 +1,136 @@
-(* Properties/C05.v — stub, replaced below *)
-From Synnax Require Import Cesium.Control.
+(* Properties/C05.v — Exactly one writer controls a channel region: highest authority wins.
+   Only statements, each closed by [exact] (or short glue), each followed by Print Assumptions.
+
+   [run true shared init ops] is the state of a cesium control.Controller (exclusive or shared)
+   after ANY finite sequence of OpenGate / SetAuthority / Release calls ([true] = OpenGate as in
+   /repo, i.e. with the F14 fix).  [cur r] is region.curr, [r_gates r] the open gates of the
+   region in open order, [g_pos] the open position, [holder rs rho] the control.State of the
+   controller of the region whose resource is rho. *)
+From Coq Require Import List NArith ZArith Permutation.
+Import ListNotations.
+From Synnax Require Import Cesium.Control Cesium.ControlProofs.
+Local Open Scope N_scope.
+
+(* (1) At every moment the gate in control of a region is an open gate of that region with the
+   highest authority, ties broken by the earliest open (smallest position; the list of open
+   gates is in strictly increasing position = open order). *)
+Theorem C05_leader_inv : forall shared ops r,
+  In r (c_regions (run true shared init ops)) ->
+  exists l, cur r = Some l /\ In l (r_gates r) /\
+    (forall g, In g (r_gates r) ->
+       g = l \/ g_auth g < g_auth l \/ (g_auth g = g_auth l /\ g_pos l < g_pos g)) /\
+    pos_sorted (r_gates r).
+Proof. exact leader_inv. Qed.
+Print Assumptions C05_leader_inv.
+
+(* (2) Go iterates region.gates (a map) in an arbitrary order inside release and update.  Whatever
+   permutation each individual call uses, the run is the one computed with list order — so
+   every theorem of this file holds for all map iteration orders. *)
+Theorem C05_order_independent : forall shared (ops : list (op * (list gate -> list gate))),
+  Forall (fun p => forall l, Permutation l (snd p l)) ops ->
+  run_gen true shared init ops = run true shared init (map fst ops).
+Proof. intros shared ops F. apply run_gen_eq; [exact cinv_init|exact F]. Qed.
+Print Assumptions C05_order_independent.
+
+(* (3) Authorize succeeds exactly for the controller (exclusive), or for every gate whose
+   authority is at least — hence equal to — the controller's (shared); it hands out the
+   region's resource exactly when it succeeds. *)
+Theorem C05_authorize_iff : forall shared ops h,
+  let s := run true shared init ops in
+  In h (c_live s) ->
+  exists r g l, In r (c_regions s) /\ In g (r_gates r) /\ g_h g = h /\ cur r = Some l /\
+    (fst (authorize shared s h) = true <->
+       if shared then g_auth l <= g_auth g else g = l) /\
+    (g_auth l <= g_auth g <-> g_auth g = g_auth l) /\
+    snd (authorize shared s h) = (if fst (authorize shared s h) then r_res r else 0).
+Proof. exact authorize_iff. Qed.
+Print Assumptions C05_authorize_iff.
+
+(* (4) Every call returns exactly one transfer.  If the call changed the controller (or the
+   controller's authority) of a region, the transfer names exactly the previous and the next
+   holder of that region; if it changed nothing the transfer has not "occurred"; and one call
+   never changes two regions. *)
+Theorem C05_transfer_exact : forall shared ops o,
+  let s := run true shared init ops in
+  let s' := fst (step true shared s o) in
+  let x := out_x (snd (step true shared s o)) in
+  (forall rho, holder (c_regions s) rho <> holder (c_regions s') rho ->
+     x_from x = holder (c_regions s) rho /\ x_to x = holder (c_regions s') rho) /\
+  ((forall rho, holder (c_regions s) rho = holder (c_regions s') rho) -> occurred x = false) /\
+  (forall rho1 rho2, holder (c_regions s) rho1 <> holder (c_regions s') rho1 ->
+                     holder (c_regions s) rho2 <> holder (c_regions s') rho2 -> rho1 = rho2).
+Proof.
+  intros shared ops o s s' x.
+  apply (transfer_exact shared s o s' (snd (step true shared s o))).
+  - apply run_cinv, cinv_init.
+  - unfold s'. destruct (step true shared s o); reflexivity.
+Qed.
+Print Assumptions C05_transfer_exact.
+
+(* (5) Folding the reported transfers, from nothing, reconstructs the current holder of every
+   region (and "no holder" for every resource without an open gate). *)
+Theorem C05_transfers_reconstruct : forall shared ops rho,
+  fold_left apply_xfer (map out_x (outs true shared init ops)) (fun _ => None) rho
+  = holder (c_regions (run true shared init ops)) rho.
+Proof.
+  intros shared ops rho. apply (reconstruct shared ops init (fun _ => None)).
+  - exact cinv_init.
+  - reflexivity.
+Qed.
+Print Assumptions C05_transfers_reconstruct.
+
+(* (6) Schedules: whatever the interleaving of the calls issued by concurrent goroutines, as long
+   as each call is one atomic step (in Go: controller.mu / region.RWMutex; that the locks give
+   this atomicity is validated by the harness, not proved), the history is one of the sequences
+   above — stated here for the leader invariant and the transfer reconstruction. *)
+Theorem C05_every_schedule_partial : forall shared (threads : list (list op)) l,
+  interleaving threads l ->
+  (forall r, In r (c_regions (run true shared init l)) ->
+     exists g, cur r = Some g /\ In g (r_gates r) /\
+       forall g', In g' (r_gates r) ->
+         g' = g \/ g_auth g' < g_auth g \/ (g_auth g' = g_auth g /\ g_pos g < g_pos g')) /\
+  (forall rho, fold_left apply_xfer (map out_x (outs true shared init l)) (fun _ => None) rho
+               = holder (c_regions (run true shared init l)) rho).
+Proof.
+  intros shared threads l _. split.
+  - intros r Ir. destruct (leader_inv shared l r Ir) as (g & C & Ig & M & _). eauto.
+  - intros rho. apply (reconstruct shared l init (fun _ => None)); [exact cinv_init|reflexivity].
+Qed.
+Print Assumptions C05_every_schedule_partial.
+
+(* The pinned upstream OpenGate ([fixed = false]) does not satisfy (1)/(3): a gate whose range
+   spans two regions is opened in the first one, takes control, and the call then fails — the
+   controller is a gate nobody holds and the open gate with the highest authority is refused.
+   This is finding F14; /repo carries the fix and [fixed = true] copies it. *)
+Definition f14_ops : list op :=
+  [Open (OCfg 0 1 100 (TR 10 50) false false false);
+   Open (OCfg 1 2 100 (TR 100 150) false false false);
+   Open (OCfg 2 3 200 (TR 20 120) false false false)].
+Theorem C05_upstream_open_refuted :
+  let s := run false false init f14_ops in
+  exists r, In r (c_regions s) /\ r_curr r = Some 2 /\ existsb (N.eqb 2) (c_live s) = false /\
+            has_gate 0 r = true /\ existsb (N.eqb 0) (c_live s) = true /\
+            fst (authorize false s 0) = false /\
+            out_st (last (outs false false init f14_ops) (Out Ok false X0 0)) = Multi.
+Proof.
+  eexists. split; [left; reflexivity|]. vm_compute. repeat split.
+Qed.
+Print Assumptions C05_upstream_open_refuted.
+
+(* Non-vacuity: a reachable shared-mode state with two regions, a tie decided by open order, a
+   take-over by SetAuthority and a release of the holder; the theorems' hypotheses are met and
+   the conclusions are non-trivial. *)
+Definition ex_ops : list op :=
+  [Open (OCfg 0 1 100 (TR 0 9223372036854775807) false false false);
+   Open (OCfg 1 2 100 (TR 10 9223372036854775807) false false false);
+   Open (OCfg 2 3 50 (TR 20 9223372036854775807) false false false);
+   SetAuth 2 200; Release 2; SetAuth 0 7].
+Example C05_nonvacuous :
+  let s := run true false init ex_ops in
+  map out_x (outs true false init ex_ops) =
+    [X None (Some (1, 100, 1)); X0; X0; X (Some (1, 100, 1)) (Some (3, 200, 1));
+     X (Some (3, 200, 1)) (Some (1, 100, 1)); X (Some (1, 100, 1)) (Some (2, 100, 1))] /\
+  c_live s = [0; 1] /\ holder (c_regions s) 1 = Some (2, 100, 1) /\
+  authorize false s 1 = (true, 1) /\ authorize false s 0 = (false, 0) /\
+  authorize true s 0 = (false, 0).
+Proof. vm_compute. repeat split. Qed.
